@@ -9,6 +9,10 @@ GLOBAL_ASSUMPTIONS = [
     "every claim is bounded: see 'bounds' per harness; inputs outside are not claimed",
 ]
 
+# merged into every explicit unwindset (slice == is a memcmp loop: bytes + 1)
+GLOBAL_UNWINDSET = {}
+MEMCMP_UNWIND = 12
+
 HARNESSES = []
 
 
@@ -64,11 +68,23 @@ H("k07b_fixed_token_6", "deflate_reader", ["C07", "C03", "C02", "C05"], unwind=7
   outside="blocks with 2 or more tokens (k07b_fixed_rewrite_3)", assumptions=FIXED_ASSUME + ["write_literal/write_reference stubbed to no-ops, window pre-filled with 32768 bytes so every distance is legal (plaintext is checked by k03b_fixed_plain_3)",
               "token-count bound assumed on the RFC reference before the real decoder runs; the real decoder's unwinding assertion discharges it"])
 H("k07b_fixed_rewrite_3", "deflate_reader", ["C07", "C03", "C05"], unwind=7, unwindset=dict(FIXED_UW, decode_block=4), timeout=1200, mem_gb=14, needs_gen=True,
+  kani_args=["-Z", "unstable-options", "--no-memory-safety-checks"],
   claim="as k07b_fixed_token_6 for blocks of <= 2 tokens", functions=FIXED_FUNCS, bounds="every fixed-Huffman block with <= 2 tokens ending within 3 bytes", assumptions=FIXED_ASSUME)
 H("k03b_fixed_plain_3", "deflate_reader", ["C03", "C05"], unwind=7, unwindset=dict(FIXED_UW, decode_block=4, write_reference=120, **{"fixed_rewrite": 125}), timeout=1500, mem_gb=14, needs_gen=True,
   claim="plain_text produced by the real write_literal/write_reference equals the replay of the RFC reference's tokens over the same window",
   functions=FIXED_FUNCS + ["DeflateReader::write_literal", "DeflateReader::write_reference"], bounds="fixed blocks of <= 2 tokens within 3 bytes over a 4-byte window (distances 1..4+produced, lengths up to 114)",
   assumptions=FIXED_ASSUME)
+H("k07w_fixed_token_write", "deflate_writer", ["C07", "C02", "C05"], unwind=7, unwindset={"RefBits.*::bits": 14, "RefBits.*code_bits": 10, "ref_fixed_block": 10, "k07w": 8,
+  "flush_whole_bytes": 5, "BitWriter::pad": 9}, timeout=1200, mem_gb=14, needs_gen=True,
+  claim="the writer's bits for a fixed-Huffman block with one token decode (RFC 1951 reference decoder) to exactly that token: all literals, all (length, distance), length 258 as 285 and as 284+31, final flag, final padding; no surplus bytes",
+  functions=["DeflateWriter::encode_block / encode_block_with_decoder (fixed arm)", "HuffmanWriter::write_literal/write_distance", "quantize_length/quantize_distance + tables", "BitWriter::write/pad/flush_whole_bytes", "DeflateWriter::flush_with_padding"],
+  bounds="every literal 0..=255; every length 3..=258 x distance 1..=32768; irregular-258 flag; both final-flag values; all 256 padding bytes",
+  assumptions=FIXED_ASSUME[:1] + ["BitWriter::flush_whole_bytes replaced by an equivalent that appends into reserved capacity without reallocation (real one runs in k07a / k02f)"])
+H("k07x_dynamic_token_write", "huffman_encoding", ["C07", "C02", "C05"], unwind=6, unwindset={"k07x": 14, "flush_whole_bytes": 6, "BitWriter::pad": 9}, timeout=1500, mem_gb=16,
+  claim="under an arbitrary Huffman code (any lengths 1..=15 and code values for the three symbols involved) the writer emits exactly code ‖ length-extra ‖ code ‖ distance-extra ‖ EOB for every (length, distance) at every starting bit offset: no bit is lost or reordered",
+  functions=["DeflateWriter::encode_block_with_decoder", "HuffmanWriter::write_literal/write_distance", "BitWriter::write/flush_whole_bytes/pad", "quantize_* + tables"],
+  bounds="every length 3..=258 x distance 1..=32768 x code lengths 1..=15 and code values x 0..=7 pending bits", outside="literal tokens under dynamic codes (same write_literal path), irregular 258 under dynamic codes",
+  assumptions=["BitWriter::flush_whole_bytes replaced by an equivalent that appends into reserved capacity without reallocation (real one runs in k07a / k02f)"])
 H("k07b0_fixed_tables_eq", "huffman_encoding", ["C07", "C03"], tier="thorough", unwind=4, unwindset={"huffman": 600, "k07b0": 600, "Vec|vec": 600}, timeout=3000, mem_gb=16, needs_gen=True,
   claim="HuffmanReader::create_fixed / HuffmanWriter::start_fixed_huffman_table return exactly the precomputed constants", functions=["HuffmanReader::create_fixed", "HuffmanWriter::start_fixed_huffman_table", "calculate_huffman_code_tree", "calc_huffman_codes"],
   bounds="concrete (no symbolic input)")
@@ -109,11 +125,14 @@ SCAN_CONTRACTS = ["contract stub decompress_deflate_stream: Err | Ok with 1 <= c
 SCAN_UW = {"next_signature": 10, "signature_hits": 18, "check_tiling": 8, "split_into_deflate_streams": 4, "k01a": 18}
 H("k01a_scan_tiling_8", "scan_deflate", ["C01", "C05"], unwind=6, unwindset=SCAN_UW, timeout=1800, mem_gb=20,
   claim="split_into_deflate_streams never panics and its chunks tile the file exactly (every literal length within the remaining bytes), for every outcome the callees' contracts allow",
-  functions=["scan_deflate::split_into_deflate_streams", "scan_deflate::next_signature"], bounds="every 8-byte file with <= 2 signature look-alikes x every contract-allowed callee outcome",
+  functions=["scan_deflate::split_into_deflate_streams", "scan_deflate::next_signature"], bounds="8-byte files: zeros with two symbolic 2-byte windows (offsets 1 and 5: each any byte pair, signature or not) x every contract-allowed callee outcome",
   outside="more look-alikes per file; acceptance in the gzip/zip/IDAT arms needs longer files (k01a_scan_tiling_big)", assumptions=SCAN_CONTRACTS)
+H("k01a_scan_reject_all_8", "scan_deflate", ["C01", "C11", "C12"], unwind=6, unwindset=SCAN_UW, timeout=1800, mem_gb=20,
+  claim="when every analysis call rejects, split_into_deflate_streams returns exactly one literal chunk covering the file (none for the empty file)",
+  functions=["scan_deflate::split_into_deflate_streams", "scan_deflate::next_signature"], bounds="8-byte and 3-byte files: zeros with symbolic 2-byte windows at offsets 0 and 4", assumptions=SCAN_CONTRACTS[1:])
 H("k01a_scan_tiling_big", "scan_deflate", ["C01", "C05"], unwind=6, unwindset=dict(SCAN_UW, next_signature=1060, k01a=18), timeout=3000, mem_gb=24,
   claim="as k01a_scan_tiling_8 on a file long enough for every arm to accept (gzip, zip, IDAT run > 1024 bytes), incl. the IDAT look-back right after an accepted stream",
-  functions=["scan_deflate::split_into_deflate_streams", "scan_deflate::next_signature"], bounds="1056-byte files = 16 symbolic bytes (<= 2 signature look-alikes) followed by zeros x every contract-allowed callee outcome",
+  functions=["scan_deflate::split_into_deflate_streams", "scan_deflate::next_signature"], bounds="1056-byte files: zeros with two symbolic 2-byte windows at offsets 4 and 12 x every contract-allowed callee outcome (any combination of two look-alikes, incl. an IDAT look-back into an accepted stream)",
   assumptions=SCAN_CONTRACTS)
 H("k01_gzip_hdr_16", "scan_deflate", ["C01", "C05", "C06"], unwind=18, timeout=900,
   claim="skip_gzip_header: Ok or Err, never panics; Ok implies >= 10 bytes consumed, CM == 8, cursor within the input", functions=["scan_deflate::skip_gzip_header"],
@@ -127,15 +146,24 @@ H("k01_zip_hdr_34", "scan_deflate", ["C01", "C05", "C06"], unwind=6, timeout=900
 H("k01d_idat_desc_rt", "idat_parse", ["C01", "C04"], unwind=7, timeout=900, mem_gb=12,
   claim="IdatContents::read_from_bytestream(write_to_bytestream(d)) preserves chunk sizes, zlib header and Adler-32",
   functions=["IdatContents::write_to_bytestream", "IdatContents::read_from_bytestream", "write_varint", "read_varint"],
-  bounds="every chunk-size vector of length <= 2 with sizes < 2^30 (incl. zero-length chunks), any header/Adler bytes")
-H("k01e_idat_total_27", "idat_parse", ["C01", "C05"], unwind=8, unwindset={"update_cheap": 30, "parse_idat": 4, "recreate_idat": 4, "idat_total": 29},
-  timeout=2400, mem_gb=30,
-  claim="parse_idat is total (Ok or Err, no panic); Ok implies 12 <= total_chunk_length <= len and recreate_idat reproduces exactly those input bytes",
-  functions=["idat_parse::parse_idat", "idat_parse::recreate_idat", "crc32fast shim"], bounds="every input of <= 27 bytes (one or two IDAT chunks, any trailing bytes)",
-  assumptions=["crc32fast::Hasher::update stubbed with a cheap byte mixer (checksum value is not the subject; same function on both sides)"])
-H("k01e_idat_total_20_crc", "idat_parse", ["C01", "C05"], unwind=8, unwindset={"crc32fast.*update": 30, "parse_idat": 4, "recreate_idat": 4, "idat_total": 29}, tier="thorough",
-  timeout=3000, mem_gb=24, claim="as k01e_idat_total_27 with the real CRC-32 (bit-serial shim)", functions=["idat_parse::parse_idat", "idat_parse::recreate_idat", "crc32fast shim"],
-  bounds="every input of <= 20 bytes (one chunk)", assumptions=["crc32fast replaced by the bit-serial shim (validated natively against the real crate)"])
+  bounds="every chunk-size vector of length <= 2 with sizes 1..2^30 (parse_idat never records a zero-length chunk: k01e), any header/Adler bytes")
+IDAT_FUNCS = ["idat_parse::parse_idat", "idat_parse::recreate_idat"]
+IDAT_ASSUME = ["chunk length fields concrete per instance, every other byte symbolic (symbolic lengths: 30 GB were not enough for 21 bytes)",
+               "crc32fast::Hasher::update stubbed with a cheap byte mixer (checksum value is not the subject; same function on both sides)"]
+IDAT_UW = {"update_cheap": 24, "crc32fast.*update": 24, "idat_shape": 46, "parse_idat": 5, "recreate_idat": 4}
+for nm, cl, bd in (("one_chunk", "one IDAT chunk of 7 payload bytes, nothing behind it", "payload length 7"),
+                   ("one_chunk_tail", "one IDAT chunk followed by 8 / 20 arbitrary bytes", "payload 6 + 8 trailing bytes; payload 9 + 20 trailing bytes"),
+                   ("short_tail", "1 or 7 bytes after the last chunk (shorter than a chunk header)", "payload 6/7 with 1, 7 trailing bytes"),
+                   ("short_tail2", "4 or 11 bytes after the last chunk", "payload 6 with 4, 11 trailing bytes"),
+                   ("tiny_payload", "payloads shorter than the fixed parts of a zlib stream", "payload lengths 1, 3, 4, 5"),
+                   ("two_chunks2", "two chunks incl. a zero-length second chunk and a split inside the Adler-32", "layouts (6,0), (4,3)")):
+    H("k01e_idat_" + nm, "idat_parse", ["C01", "C05"], unwind=6, unwindset=IDAT_UW, timeout=1500, mem_gb=24,
+      claim="parse_idat is total (Ok or Err, no panic) on " + cl + "; Ok implies 12 <= total_chunk_length <= len, total = sum of chunks + 12 each, payload = chunk data minus 6, no zero-length chunk recorded",
+      functions=IDAT_FUNCS[:1], bounds=bd + "; all payload, CRC and trailing bytes symbolic", assumptions=IDAT_ASSUME)
+H("k01e_idat_recreate", "idat_parse", ["C01"], unwind=6, unwindset=IDAT_UW, timeout=3000, mem_gb=40, tier="thorough",
+  claim="recreate_idat(parse_idat(x)) reproduces exactly the consumed input bytes", functions=IDAT_FUNCS, bounds="one chunk of 7 payload bytes, all symbolic", assumptions=IDAT_ASSUME)
+H("k01e_idat_real_crc", "idat_parse", ["C01"], unwind=9, unwindset=IDAT_UW, timeout=3000, mem_gb=24, tier="thorough",
+  claim="as k01e_idat_one_chunk with the real bit-serial CRC-32", functions=IDAT_FUNCS + ["crc32fast shim"], bounds="one chunk, 6 payload bytes", assumptions=IDAT_ASSUME[:1])
 
 # ---------------------------------------------------------------- container chunks, I/O faults (C01, C13), zstd (C11), C ABI (C12)
 CONT_FUNCS = ["preflate_container::recreated_zlib_chunks", "preflate_container::read_chunk_block", "preflate_container::write_chunk_block",
@@ -145,33 +173,38 @@ H("k01c_literal_chunks_rt", "preflate_container", ["C01", "C13", "C04"], unwind=
   bounds="files of 0,1,3,5 symbolic bytes in 1-2 literal chunks (4 concrete shapes (length, split): chunk tags/lengths at concrete offsets)",
   assumptions=["deflate/PNG arms of read_chunk_block cut by Err stubs (unreachable for literal-only containers; symbolic execution would otherwise enter the whole reconstruction)"])
 K13_UW = {"fragmented_io": 12, "io_faults": 12, "write_varint": 3, "read_varint": 3}
-H("k13a_fragmented_io", "preflate_container", ["C13"], unwind=5, unwindset=K13_UW, timeout=1800, mem_gb=20,
-  claim="recreated_zlib_chunks gives the same output for every read fragmentation (1..n bytes per call, up to 2 Interrupted results) and every partial-write pattern",
-  functions=CONT_FUNCS, bounds="3-byte file (symbolic content) in two literal chunks (1+2) x all fragmentations", outside="deflate / IDAT chunks under fragmentation",
-  assumptions=["FragRead / FragWrite: solver-chosen short reads, Interrupted, partial writes"])
-H("k13a_fragmented_io_1chunk", "preflate_container", ["C13"], unwind=5, unwindset=K13_UW, timeout=1800, mem_gb=20,
-  claim="as k13a_fragmented_io for a one-chunk container", functions=CONT_FUNCS, bounds="2-byte file in one literal chunk x all fragmentations", assumptions=["FragRead / FragWrite"])
-H("k13b_io_faults_1chunk", "preflate_container", ["C13", "C05"], unwind=5, unwindset=K13_UW, timeout=1800, mem_gb=20,
-  claim="as k13b_io_faults for a one-chunk container", functions=CONT_FUNCS, bounds="2-byte file in one literal chunk x faults at every offset", assumptions=["FragRead / FragWrite fault injection"])
-H("k13b_io_faults", "preflate_container", ["C13", "C05"], unwind=5, unwindset=K13_UW, timeout=1800, mem_gb=20,
-  claim="a hard I/O error at any source or destination offset yields Err without panic, and the bytes accepted so far are a prefix of the original file",
-  functions=CONT_FUNCS, bounds="3-byte file in two literal chunks x fault at every source offset 0..len and every destination offset, combined with fragmentation",
-  assumptions=["FragRead / FragWrite fault injection"])
-ZSTD_ASSUME = ["zstd replaced by the framing model in /verif/shims/zstd (FFI cannot be encoded): the claim is about preflate-rs's plumbing given a zstd meeting that contract"]
-H("k11a_zstd_roundtrip", "preflate_container", ["C11", "C01"], unwind=9, timeout=1200, mem_gb=14,
+K13_ASSUME = ["FragRead / FragWrite: concrete fragmentation pattern per instance (1, 2 or all bytes per call), hard error at a symbolic offset; read_exact / write_all are std's loops minus the Interrupted retry arm",
+              "deflate/PNG arms of read_chunk_block cut by Err stubs (unreachable for literal-only containers)"]
+H("k13a_fragmented_io", "preflate_container", ["C13"], unwind=6, unwindset=K13_UW, timeout=1800, mem_gb=20,
+  claim="recreated_zlib_chunks gives the same output under one-byte, two-byte and bulk reads combined with one-byte / bulk partial writes",
+  functions=CONT_FUNCS, bounds="3-byte file in two literal chunks and 4-byte file in one chunk (symbolic content) x 4 concrete fragmentation patterns",
+  outside="solver-chosen per-call fragmentation (ran out of memory), deflate / IDAT chunks, ErrorKind::Interrupted retries", assumptions=K13_ASSUME)
+H("k13b_io_faults", "preflate_container", ["C13", "C05"], unwind=6, unwindset=K13_UW, timeout=1800, mem_gb=20,
+  claim="a hard I/O error at any source or destination offset yields Err without panic, and the bytes accepted so far are a prefix of the original file (one-byte reads and writes)",
+  functions=CONT_FUNCS, bounds="3-byte file in two literal chunks (8-byte container) x source fault at each offset 0,1,2,3,4,6,7,8 (concrete instances), symbolic content", assumptions=K13_ASSUME)
+H("k13b_io_faults_dst", "preflate_container", ["C13", "C05"], unwind=6, unwindset=K13_UW, timeout=1800, mem_gb=20,
+  claim="destination failing at every offset 0..3 (and a combined source+destination fault) yields Err without panic, with a prefix of the file written",
+  functions=CONT_FUNCS, bounds="3-byte file in two literal chunks x destination fault at offsets 0,1,2,3 x bulk / 1-byte / 2-byte transfers", assumptions=K13_ASSUME)
+CONTAINER_CONTRACT = "container layer replaced by an identity contract (expand = copy, recreate = copy through the destination's write_all): the container round trip itself is C01's lemma (k01c, k13*, k01a*); this harness decides the zstd / buffer plumbing"
+ZSTD_ASSUME = [CONTAINER_CONTRACT, "zstd replaced by the framing model in /verif/shims/zstd (FFI cannot be encoded): the claim is about preflate-rs's plumbing given a zstd meeting that contract"]
+H("k11a_zstd_roundtrip", "preflate_container", ["C11"], unwind=6, timeout=1200, mem_gb=14,
   claim="decompress_zstd(compress_zstd(F), cap) == F when cap >= expanded size and Err when smaller (no truncated Ok, no panic)",
-  functions=["compress_zstd", "decompress_zstd", "expand_zlib_chunks", "split_into_deflate_streams", "recreated_zlib_chunks"],
-  bounds="files of 0, 1 and 3 symbolic bytes x every capacity 0..=16", assumptions=ZSTD_ASSUME + ["analysis and the three header parsers replaced by Err stubs: a file of <= 3 bytes cannot hold a header or an accepted stream (k01_gzip_hdr_16, k01_zip_hdr_34, k01e)"])
+  functions=["compress_zstd", "decompress_zstd", "PreflateError::from(io::Error) occurrence"],
+  bounds="files of 0, 1, 4 symbolic bytes x every capacity 0..=8 (symbolic)", assumptions=ZSTD_ASSUME)
 H("k11b_zstd_not_a_frame", "preflate_container", ["C11", "C05"], unwind=12, timeout=1200, mem_gb=14,
   claim="input that is not a well-formed frame gives Err, never a panic",
   functions=["decompress_zstd"], bounds="every non-frame input of <= 10 bytes x capacities 0..=16", assumptions=ZSTD_ASSUME)
 ABI_ASSUME = ZSTD_ASSUME + ["scratch-copy-only substitution: the import of std::panic::catch_unwind in src/lib.rs is replaced under cfg(kani) by a shim that calls the closure (Kani 0.68 ICEs on the intrinsic; no unwinding semantics): 'never unwinds' is not decided"]
-H("k12a_wrapper_compress", "lib", ["C12"], unwind=9, unwindset={"k12a": 30}, timeout=1200, mem_gb=14,
+H("k12a_wrapper_compress", "lib", ["C12"], unwind=4, unwindset={"wrapper_compress": 30, "next_signature": 4, "literal_only": 3}, timeout=1200, mem_gb=14,
   claim="WrapperCompressZip: 0 only with *result_size <= capacity (= bytes produced), negative when the buffer is too small, guard bytes on both sides untouched, CBMC pointer checks pass",
-  functions=["WrapperCompressZip", "expand_zlib_chunks"], bounds="inputs of 0, 2 and 3 symbolic bytes x every capacity 0..=20", assumptions=ABI_ASSUME)
-H("k12b_wrapper_roundtrip", "lib", ["C12"], unwind=9, unwindset={"k12b": 16}, timeout=1200, mem_gb=14,
+  functions=["WrapperCompressZip"], bounds="(length, capacity) instances (0,7) (0,8) (3,10) (3,11) (3,20): one short / exact fit / generous; content symbolic", assumptions=ABI_ASSUME)
+H("k12b_wrapper_roundtrip", "lib", ["C12"], unwind=4, unwindset={"wrapper_roundtrip": 16, "next_signature": 4, "literal_only": 3}, timeout=1200, mem_gb=14,
   claim="WrapperCompressZip then WrapperDecompressZip returns the file for every sufficient capacity, negative status for every smaller one, never writes outside the buffer",
-  functions=["WrapperCompressZip", "WrapperDecompressZip", "recreated_zlib_chunks"], bounds="files of 0 and 3 symbolic bytes x every output capacity 0..=6", assumptions=ABI_ASSUME)
+  functions=["WrapperCompressZip", "WrapperDecompressZip", "recreated_zlib_chunks"], bounds="(length, capacity) instances (3,2) (3,3) (0,0) (3,6); content symbolic", assumptions=ABI_ASSUME)
+H("k12a_wrapper_compress_more", "lib", ["C12"], unwind=4, unwindset={"wrapper_compress": 30, "next_signature": 4, "literal_only": 3}, timeout=3000, mem_gb=14, tier="thorough",
+  claim="as k12a_wrapper_compress", functions=["WrapperCompressZip", "expand_zlib_chunks"], bounds="(0,0) (2,9) (2,10) (1,12) (length, capacity) instances", assumptions=ABI_ASSUME)
+H("k12b_wrapper_roundtrip_more", "lib", ["C12"], unwind=4, unwindset={"wrapper_roundtrip": 16, "next_signature": 4, "literal_only": 3}, timeout=3000, mem_gb=14, tier="thorough",
+  claim="as k12b_wrapper_roundtrip", functions=["WrapperCompressZip", "WrapperDecompressZip"], bounds="(3,0) (2,1) (1,1) (2,5) (length, capacity) instances", assumptions=ABI_ASSUME)
 H("k12c_wrapper_decompress_garbage", "lib", ["C12", "C05"], unwind=14, timeout=1200, mem_gb=14,
   claim="WrapperDecompressZip on bytes that are not a frame: negative status, nothing written outside the buffer",
   functions=["WrapperDecompressZip"], bounds="every non-frame input of <= 12 bytes x capacity 0..=4", assumptions=ABI_ASSUME)
@@ -242,7 +275,7 @@ def K4(name, module, claim, functions, bounds, **kw):
     H(name, module, ["C04"] + kw.pop("also", []), claim=claim, functions=functions, bounds=bounds, assumptions=REF_ASSUME, needs_ref=True, **kw)
 K4("k04a_hash_equiv", "hash_algorithm", "all 8 hash functions (7 algorithms + libdeflate's secondary 3-byte hash) return the reference build's value", ["*Hash::get_hash", "num_hash_bytes"],
    "every 4-byte input; Zlib rotating hash with every mask and shift <= 15", unwind=5, timeout=900)
-K4("k04b_enum_discriminants", "statistical_codec", "numbering of CodecCorrection/CodecMisprediction (context indices), strategies, block types, tree code types, chunk tags, version and match constants equals the reference build's",
+K4("k04b_enum_discriminants", "statistical_codec", "numbering of the enums written as values (strategies, block types, tree code types), chunk tags, version and match constants equals the reference build's (context-enum numbering is deliberately not compared: a permutation of equally-initialised slots is not a format change)",
    ["enum discriminants", "format constants"], "all variants (concrete)", unwind=21, timeout=600)
 K4("k04c_add_policy_calls", "add_policy_estimator", "DictionaryAddPolicy::update_hash makes the same dictionary insertions as the reference build and only in-range ones; is_at_32k_boundary agrees",
    ["DictionaryAddPolicy::update_hash", "is_at_32k_boundary"], "5 policies x limit 0..=258 x pos < 2^30 x length 1..=258 x remaining input 1..=260", unwind=5, timeout=900, also=["C05"])
@@ -261,8 +294,8 @@ K4("k04f_param_header_equiv", "preflate_parameter_estimator", "PreflateParameter
    "every parameter vector in estimator_range with min_len set", unwind=42, timeout=900)
 K4("k04g_nodict_params_equiv", "preflate_parameter_estimator", "the parameter vector estimated for dictionary-free streams (incl. default block size 16386) equals the reference build's",
    ["estimate_preflate_parameters (Store / HuffOnly branch)", "extract_preflate_info", "estimate_preflate_strategy", "estimate_preflate_huff_strategy"], "one stored block / one literal-only fixed block (concrete)", unwind=42, timeout=900, mem_gb=16)
-K4("k04h_cabac_symbols_equiv", "cabac_codec", "binarisation: the (bit, context slot) symbols put on the arithmetic coder for two operations + finish equal the reference build's; encode/decode_difference agree",
-   ["PredictionCabacContext::encode_*", "write_exp_encoded", "flush_encode", "encode_difference", "decode_difference"], "all pairs of operations (3 kinds each), values < 256, widths 1..=8", unwind=18, unwindset={"k04h": 50}, timeout=1800, mem_gb=16)
+K4("k04h_cabac_symbols_equiv", "cabac_codec", "binarisation: the bits put on the arithmetic coder for two operations + finish, their bypass/adaptive split and the partition of symbols into adaptive context slots (up to renaming) equal the reference build's; encode/decode_difference agree",
+   ["PredictionCabacContext::encode_*", "write_exp_encoded", "flush_encode", "encode_difference", "decode_difference"], "all pairs of operations (3 kinds each), values < 16, widths 1..=4", unwind=18, unwindset={"k04h": 26}, timeout=1800, mem_gb=16)
 K4("k04i_container_bytes_equiv", "preflate_container", "varint bytes, literal chunk framing and IDAT descriptor layout equal the reference build's", ["write_varint", "write_chunk_block (literal)", "IdatContents::write_to_bytestream"],
    "every u32; literal data <= 3 bytes; <= 2 chunk sizes < 2^28", unwind=22, timeout=900, also=["C01"])
 
@@ -278,6 +311,23 @@ H("k06b_find_gzip", "scan_deflate", ["C06"], unwind=6, unwindset={"next_signatur
 H("k06c_find_zip", "scan_deflate", ["C06"], unwind=6, unwindset={"next_signature": 42, "signature_hits": 42}, timeout=1800, mem_gb=20,
   claim="a stream behind a ZIP local file header (method 8) is emitted as a DeflateStream chunk starting exactly after name and extra field",
   functions=["split_into_deflate_streams (zip arm)", "parse_zip_stream", "ZipLocalFileHeader::create_and_load"], bounds="name/extra lengths 0..=2 each, all other header fields arbitrary", assumptions=C06_ASSUME)
+
+H("k05d_info_params", "preflate_parameter_estimator", ["C05", "C02", "C08"], unwind=5, timeout=1500, mem_gb=16,
+  claim="estimate_preflate_parameters is total on every small block list and the vector it returns survives PreflateParameters::write -> read (incl. streams whose Huffman blocks hold no reference)",
+  functions=["estimate_preflate_parameters", "extract_preflate_info", "estimate_preflate_strategy", "estimate_preflate_huff_strategy", "estimate_preflate_window_bits", "estimate_preflate_mem_level",
+             "PreflateParameters::write", "PreflateParameters::read"],
+  bounds="every list of <= 2 blocks (stored / fixed / dynamic) with <= 2 tokens each (literals, references 3..=258 / 1..=32768)",
+  assumptions=["estimate_preflate_comp_level and estimate_add_policy replaced by range stubs (results in recommend()'s range, min_len and add_policy passed through): the table-based estimators are out of reach"])
+H("k02h_add_policy_range", "add_policy_estimator", ["C02", "C08", "C05"], unwind=5, unwindset={"estimate_add_policy": 262}, timeout=1800, mem_gb=20,
+  claim="estimate_add_policy returns limits that fit the parameter header's 8-bit field", functions=["add_policy_estimator::estimate_add_policy"],
+  bounds="one block: literal, reference (len 3..=258, dist 1), reference (len 3..=258, any distance into the previous match)", outside="longer token sequences")
+
+H("k05g_chain_position_step", "hash_chain", ["C05"], unwind=4, timeout=1500, mem_gb=20,
+  claim="real hash chain position bookkeeping: from any state with 8 <= pos - total_shift <= 0xfffe, update_hash(pos, len <= 258) then iterate(next pos, offset 0|1) never overflows the u16 internal position, and the same invariant holds again (inductive: covers inputs of any length)",
+  functions=["HashChainNormalize::update_hash (threshold, reshift bookkeeping)", "HashChainNormalize::iterate (ref_pos, head lookup, first dist)", "InternalPosition::from_absolute/dist/is_valid"],
+  bounds="total_shift in {-8, 0x7df8, 0xfbf8}, every pos satisfying the invariant, every length 1..=258, offset 0|1; one inductive step",
+  assumptions=["hash table = arbitrary (nondeterministic) heap object; HashTable::update_chain and HashTable::reshift are no-op stubs (the 64K tables are out of reach)",
+               "the consulted head entry is an arbitrary internal position not after the reference position (what update_chain maintains)"])
 
 
 def version_gate(dst, verif):
